@@ -633,7 +633,8 @@ class TDS(BaseRoutine):
         # do not skip over event switch_times
         if self._switch_idx < system.n_switches:
             t_switch = system.switch_times[self._switch_idx]
-            if (system.dae.t + self.h) > t_switch or abs(t_switch - system.dae.t - self.h) <= 1e-12 * self.h:
+            if (system.dae.t + self.h) > t_switch or \
+                    (t_switch <= config.tf and abs(t_switch - system.dae.t - self.h) <= 1e-12 * self.h):
                 self.h = t_switch - system.dae.t
 
         if self.data_csv is not None:
